@@ -6,8 +6,9 @@ import Acpi.Aml.Eisa
 import Acpi.Spec.Eisa
 import Acpi.Spec.Int
 import Acpi.Props.C08
+import Acpi.Lemmas.Eisa
 namespace Acpi.C16
-open Acpi Spec.Eisa
+open Acpi Spec.Eisa Lemmas.Eisa
 
 /-- ASCII view of a character list (the UTF-8 bytes of an ASCII string) -/
 def asciiBytes (cs : List Char) : Bytes := cs.map (fun c => UInt8.ofNat c.toNat)
@@ -52,5 +53,116 @@ theorem uuid_misplaced_dash (cs : List Char)
   by_cases hl : cs.length ≠ 36
   · rw [if_pos hl]
   · rw [if_neg hl, if_pos h]
+
+/-! ### acceptance and round trip -/
+
+theorem subBase_letter : ∀ l : Fin 26,
+    subBase (UInt8.ofNat (letter l).toNat) = some (UInt32.ofNat (l.val + 1)) := by
+  decide +kernel
+
+theorem toDigit16_hexCh : ∀ (d : Fin 16) (u : Bool),
+    toDigit16 (hexCh d u) = some (UInt32.ofNat d.val) := by
+  decide +kernel
+
+theorem hexUpper_eq (d : Fin 16) : hexUpper d.val = hexCh d true := by
+  revert d; decide +kernel
+
+/-- the model evaluated on a canonical id: no panic, and the value is the packed word swapped -/
+theorem eisaValue_canon (l1 l2 l3 : Fin 26) (d1 d2 d3 d4 : Fin 16) (u1 u2 u3 u4 : Bool) :
+    eisaValue (asciiBytes [letter l1, letter l2, letter l3, hexCh d1 u1, hexCh d2 u2, hexCh d3 u3, hexCh d4 u4])
+      [letter l1, letter l2, letter l3, hexCh d1 u1, hexCh d2 u2, hexCh d3 u3, hexCh d4 u4] =
+    some (swapBytes ((UInt32.ofNat (l1.val+1) <<< 26) ||| (UInt32.ofNat (l2.val+1) <<< 21) |||
+      (UInt32.ofNat (l3.val+1) <<< 16) ||| (UInt32.ofNat d1.val <<< 12) ||| (UInt32.ofNat d2.val <<< 8)
+      ||| (UInt32.ofNat d3.val <<< 4) ||| UInt32.ofNat d4.val)) := by
+  unfold eisaValue asciiBytes
+  rw [if_neg (by simp)]
+  simp only [List.map_cons, List.getElem!_cons_zero, List.getElem!_cons_succ, List.getElem?_cons_zero,
+    List.getElem?_cons_succ, subBase_letter, toDigit16_hexCh, Option.bind_some, Option.bind_eq_bind]
+
+/-- **C16 (EISA)**: every canonical id (three letters A–Z, four hex digits in either case) is
+    accepted, and the 32-bit value decompresses, by the specification's rule, to the same id
+    (digits upper-cased). -/
+theorem eisa_roundtrip (l1 l2 l3 : Fin 26) (d1 d2 d3 d4 : Fin 16) (u1 u2 u3 u4 : Bool) :
+    ∃ v : UInt32,
+      eisaValue (asciiBytes [letter l1, letter l2, letter l3, hexCh d1 u1, hexCh d2 u2, hexCh d3 u3, hexCh d4 u4])
+        [letter l1, letter l2, letter l3, hexCh d1 u1, hexCh d2 u2, hexCh d3 u3, hexCh d4 u4] = some v ∧
+      decompress v.toNat =
+        [letter l1, letter l2, letter l3, hexCh d1 true, hexCh d2 true, hexCh d3 true, hexCh d4 true] := by
+  refine ⟨_, eisaValue_canon l1 l2 l3 d1 d2 d3 d4 u1 u2 u3 u4, ?_⟩
+  have a1 := toNat_ofNat_small (l1.val + 1) (by omega)
+  have a2 := toNat_ofNat_small (l2.val + 1) (by omega)
+  have a3 := toNat_ofNat_small (l3.val + 1) (by omega)
+  have b1 := toNat_ofNat_small d1.val (by omega)
+  have b2 := toNat_ofNat_small d2.val (by omega)
+  have b3 := toNat_ofNat_small d3.val (by omega)
+  have b4 := toNat_ofNat_small d4.val (by omega)
+  have hp := pack_toNat (UInt32.ofNat (l1.val+1)) (UInt32.ofNat (l2.val+1)) (UInt32.ofNat (l3.val+1))
+    (UInt32.ofNat d1.val) (UInt32.ofNat d2.val) (UInt32.ofNat d3.val) (UInt32.ofNat d4.val)
+    (by omega) (by omega) (by omega) (by omega) (by omega) (by omega) (by omega)
+  rw [a1, a2, a3, b1, b2, b3, b4] at hp
+  have hd := decompress_swapped (l1.val+1) (l2.val+1) (l3.val+1) d1.val d2.val d3.val d4.val
+    (by omega) (by omega) (by omega) (by omega) (by omega) (by omega) (by omega) _ _ hp (swapBytes_toNat _)
+  rw [hd, hexUpper_eq, hexUpper_eq, hexUpper_eq, hexUpper_eq]
+  have e : ∀ l : Fin 26, Char.ofNat (64 + (l.val + 1)) = letter l := by
+    intro l; unfold letter; congr 1; omega
+  rw [e, e, e]
+
+/-- a valid UUID string: 32 hex digits `ds` (spelled per `us`) with dashes at 8, 13, 18, 23 -/
+def uuidString (ds : Fin 32 → Fin 16) (us : Fin 32 → Bool) : List Char :=
+  [hexCh (ds ⟨0, by decide⟩) (us ⟨0, by decide⟩), hexCh (ds ⟨1, by decide⟩) (us ⟨1, by decide⟩),
+   hexCh (ds ⟨2, by decide⟩) (us ⟨2, by decide⟩), hexCh (ds ⟨3, by decide⟩) (us ⟨3, by decide⟩),
+   hexCh (ds ⟨4, by decide⟩) (us ⟨4, by decide⟩), hexCh (ds ⟨5, by decide⟩) (us ⟨5, by decide⟩),
+   hexCh (ds ⟨6, by decide⟩) (us ⟨6, by decide⟩), hexCh (ds ⟨7, by decide⟩) (us ⟨7, by decide⟩),
+   '-', hexCh (ds ⟨8, by decide⟩) (us ⟨8, by decide⟩),
+   hexCh (ds ⟨9, by decide⟩) (us ⟨9, by decide⟩), hexCh (ds ⟨10, by decide⟩) (us ⟨10, by decide⟩),
+   hexCh (ds ⟨11, by decide⟩) (us ⟨11, by decide⟩), '-',
+   hexCh (ds ⟨12, by decide⟩) (us ⟨12, by decide⟩), hexCh (ds ⟨13, by decide⟩) (us ⟨13, by decide⟩),
+   hexCh (ds ⟨14, by decide⟩) (us ⟨14, by decide⟩), hexCh (ds ⟨15, by decide⟩) (us ⟨15, by decide⟩),
+   '-', hexCh (ds ⟨16, by decide⟩) (us ⟨16, by decide⟩),
+   hexCh (ds ⟨17, by decide⟩) (us ⟨17, by decide⟩), hexCh (ds ⟨18, by decide⟩) (us ⟨18, by decide⟩),
+   hexCh (ds ⟨19, by decide⟩) (us ⟨19, by decide⟩), '-',
+   hexCh (ds ⟨20, by decide⟩) (us ⟨20, by decide⟩), hexCh (ds ⟨21, by decide⟩) (us ⟨21, by decide⟩),
+   hexCh (ds ⟨22, by decide⟩) (us ⟨22, by decide⟩), hexCh (ds ⟨23, by decide⟩) (us ⟨23, by decide⟩),
+   hexCh (ds ⟨24, by decide⟩) (us ⟨24, by decide⟩), hexCh (ds ⟨25, by decide⟩) (us ⟨25, by decide⟩),
+   hexCh (ds ⟨26, by decide⟩) (us ⟨26, by decide⟩), hexCh (ds ⟨27, by decide⟩) (us ⟨27, by decide⟩),
+   hexCh (ds ⟨28, by decide⟩) (us ⟨28, by decide⟩), hexCh (ds ⟨29, by decide⟩) (us ⟨29, by decide⟩),
+   hexCh (ds ⟨30, by decide⟩) (us ⟨30, by decide⟩), hexCh (ds ⟨31, by decide⟩) (us ⟨31, by decide⟩)]
+
+theorem hex2byte_hexCh : ∀ (d1 d2 : Fin 16) (u1 u2 : Bool),
+    hex2byte (hexCh d1 u1) (hexCh d2 u2) = some (UInt8.ofNat (16 * d1.val + d2.val)) := by
+  decide +kernel
+
+theorem byteLower_hexCh : ∀ (d1 d2 : Fin 16),
+    byteLower (UInt8.ofNat (16 * d1.val + d2.val)) = [hexCh d1 false, hexCh d2 false] := by
+  decide +kernel
+
+/-- **C16 (UUID)**: every canonical 36-character UUID string (either letter case) is accepted,
+    the buffer has 16 bytes, and reading it back in ToUUID order gives the same UUID in
+    lower case. -/
+theorem uuid_roundtrip (ds : Fin 32 → Fin 16) (us : Fin 32 → Bool) :
+    ∃ b : Bytes, uuidBytes (uuidString ds us) = some b ∧ b.length = 16 ∧
+      uuidOfBuffer b = some (uuidString ds (fun _ => false)) := by
+  unfold uuidBytes
+  rw [if_neg (by intro h; exact h rfl), if_neg (by intro h; rcases h with h | h | h | h <;> exact h rfl)]
+  simp only [uuidString, List.getElem!_cons_zero, List.getElem!_cons_succ, hex2byte_hexCh]
+  simp only [List.mapM_cons, List.mapM_nil, id_eq, Option.pure_def, Option.bind_eq_bind, Option.bind_some]
+  refine ⟨_, rfl, rfl, ?_⟩
+  simp only [uuidOfBuffer, byteLower_hexCh, List.cons_append, List.nil_append]
+
+/-- **C16 refusal (UUID)**: a non-hex character at any of the 32 digit positions is refused. -/
+theorem uuid_nonhex (cs : List Char) (k : Nat) (hk : k < 36) (hd : k ≠ 8 ∧ k ≠ 13 ∧ k ≠ 18 ∧ k ≠ 23)
+    (h : toDigit16 cs[k]! = none) : uuidBytes cs = none := by
+  by_cases hl : cs.length = 36
+  · by_cases hdash : (cs[8]! ≠ '-' ∨ cs[13]! ≠ '-' ∨ cs[18]! ≠ '-' ∨ cs[23]! ≠ '-')
+    · exact uuid_misplaced_dash cs hdash
+    · rw [uuidBytes_eq cs hl hdash]
+      apply mapM_id_none_of_mem
+      obtain ⟨p, hp, hpk⟩ := uuidPairs_cover ⟨k, hk⟩ hd
+      apply List.mem_map.mpr
+      refine ⟨p, hp, ?_⟩
+      rcases hpk with e | e
+      · exact hex2byte_none_left _ _ (by rw [e]; exact h)
+      · exact hex2byte_none_right _ _ (by rw [e]; exact h)
+  · exact uuid_wrong_length cs hl
 
 end Acpi.C16
